@@ -65,7 +65,7 @@ func RegisterLevel(levelValue Level, title string, opts ...RegOpt) error {
 			return fmt.Errorf("the given level %q is duplicated with %q", shortTagMap[5][v], v)
 		}
 	}
-	if l, ok := stringToLevel[title]; ok {
+	if l, ok := stringToLevel[strings.ToLower(title)]; ok { // names are looked up in lower case (ParseLevel)
 		// return errorsv2.New("the title %q has been used for %q", title, l)
 		return fmt.Errorf("the title %q has been used for %q", title, l)
 	}
@@ -81,7 +81,7 @@ func RegisterLevel(levelValue Level, title string, opts ...RegOpt) error {
 
 	allLevels = append(allLevels, levelValue)
 	levelToString[levelValue] = title
-	stringToLevel[title] = levelValue
+	stringToLevel[strings.ToLower(title)] = levelValue
 
 	for i := 0; i < MaxLengthShortTag; i++ {
 		if str := pack.shortTags[i]; str != "" {
